@@ -278,18 +278,34 @@ class GroupBy:
         # first try monotonic (increasing) factorization.
         # Optimization for thinks like date/time buckets, cumulative counts etc.
         # Exits as soon as it detects non-monotonicity and uses empty arrays to avoid wasted memory
-        cutoff, mono_codes, mono_uniques = monotonic_factorization(group_key)
-        mono_codes = mono_codes[:cutoff]
-        if cutoff == len(group_key):
-            # group_key is fully monotonic
-            self._group_ikey, self._result_index = mono_codes, pd.Index(mono_uniques)
-            return
+        is_numeric = series_is_numeric(group_key)
+        if is_numeric:
+            cutoff, mono_codes, mono_uniques = monotonic_factorization(group_key)
+            mono_codes = mono_codes[:cutoff]
+            if cutoff == len(group_key):
+                # group_key is fully monotonic
+                self._group_ikey, self._result_index = mono_codes, pd.Index(
+                    mono_uniques
+                )
+                return
+        else:
+            # strings / objects cannot go through the numba run detection
+            cutoff = 0
 
         use_monotonic_piece = cutoff > len(group_key) / 4
         if use_monotonic_piece:
             group_key = group_key[cutoff:]
 
-        group_key_list = _val_to_numpy(group_key, as_list=True)
+        if is_numeric:
+            group_key_list = _val_to_numpy(group_key, as_list=True)
+        else:
+            arrow = to_arrow(group_key) if is_pyarrow_backed(group_key) else None
+            if isinstance(arrow, pa.ChunkedArray):
+                group_key_list = [
+                    chunk.to_numpy(zero_copy_only=False) for chunk in arrow.chunks
+                ]
+            else:
+                group_key_list = [np.asarray(group_key)]
         if len(group_key_list) == 1:
             group_key_chunks = np.array_split(
                 group_key_list[0], self._n_threads_for_key_factorization
